@@ -161,7 +161,11 @@ func (g *gworld) propMsgs(kindN int) []sdk.Msg {
 
 func (g *gworld) opSubmit(who int, expedited bool, initial int64, kindN int) uint64 {
 	g.s.MintToken(g.voters[who], gcoins(initial)...)
-	msg, err := v1.NewMsgSubmitProposal(g.propMsgs(kindN), gcoins(initial), g.voters[who].String(), "", "t", "s", expedited)
+	meta := ""
+	if len(g.propMsgs(kindN)) == 0 {
+		meta = "text proposal" // a proposal without messages must carry metadata
+	}
+	msg, err := v1.NewMsgSubmitProposal(g.propMsgs(kindN), gcoins(initial), g.voters[who].String(), meta, "t", "s", expedited)
 	if err != nil {
 		g.t.Fatal(err)
 	}
@@ -298,7 +302,13 @@ func (g *gworld) due(at time.Time) []dueT {
 		}
 		params, _ := k.Params.Get(ctx)
 		bonded, _ := sk.TotalBondedTokens(ctx)
-		quorum, _ := sdkmath.LegacyNewDecFromStr(k.GetCustomMsgQuorum(ctx, params.Quorum, p))
+		// the keeper's own per-message-type lookup, under recover: a lookup that cannot cope with this proposal (e.g. one without
+		// messages) must show up as the tally's failure below, not as a crash of the harness
+		quorumS := params.Quorum
+		if r := hx.Try(func() error { quorumS = k.GetCustomMsgQuorum(ctx, params.Quorum, p); return nil }); r != "ok" {
+			g.out.Count("gtally:custom-quorum-lookup-panics")
+		}
+		quorum, _ := sdkmath.LegacyNewDecFromStr(quorumS)
 		veto, _ := sdkmath.LegacyNewDecFromStr(params.VetoThreshold)
 		thrS := params.Threshold
 		if p.Expedited {
